@@ -39,7 +39,7 @@ def run(ctx):
     if ctx.tier == 'thorough' and ok:
         ctx.coqchk('Props/C02.v')
     quick = ctx.tier == 'quick'
-    cases = R.gen_cases(ctx, 1500 if quick else 60000, 400 if quick else 8000, 500 if quick else 20000, 4 if quick else 6)
+    cases = R.gen_cases(ctx, 1500 if quick else 20000, 400 if quick else 4000, 500 if quick else 8000, 4 if quick else 6)
     R.record(ctx, cases)
     ctx.rule = ('random type trees (depth <= %d) x protocol versions x typed values (boundary pools, nulls at every level), special shapes, corpus, '
                 'range-boundary stream (min-1, min, max, max+1 of every ranged type, alone and inside containers), shape-error stream, '
@@ -81,7 +81,7 @@ def run(ctx):
         ctx.proof_broken.append(('correspondence:CqlCodec', str(e)[-800:]))
     # ---- marshal.py against MarshalModel.v
     try:
-        exprs, meta = R.marshal_cases(ctx.rng, 150 if quick else 5000)
+        exprs, meta = R.marshal_cases(ctx.rng, 150 if quick else 2000)
         ctx.count('stream', 'marshal', len(exprs))
         bad = ctx.coq_filter(R.MODEL_REQ, '(fun b : bool => b)', exprs, shard=200)
         for i in bad[:10]:
